@@ -34,6 +34,28 @@ Proof.
     apply IH in H; lia.
 Qed.
 
+(* a custom parser's program never ends before its start: it moves forward with next / skip, and rewinds only to
+   checkpoints it saved itself *)
+Lemma prog_sem_ext ops : forall start stack acc p b acc' p1 lo,
+  prog_sem toks spn ops start stack acc p = (b, acc', p1) -> lo <= p <= length toks ->
+  Forall (fun q => lo <= q <= length toks) stack -> lo <= p1 <= length toks.
+Proof.
+  induction ops as [|o ops IH]; intros start stack acc p b acc' p1 lo H Hp Hst; cbn [prog_sem] in H.
+  { injection H as <- <- <-. exact Hp. }
+  destruct o.
+  - destruct (nth_error toks p) eqn:E; [apply nth_some_lt in E|]; eapply IH in H; eauto; lia.
+  - destruct (nth_error toks p) eqn:E; [apply nth_some_lt in E|]; eapply IH in H; eauto; lia.
+  - eapply IH in H; eauto.
+  - destruct (nth_error toks p) eqn:E; [apply nth_some_lt in E|]; eapply IH in H; eauto; lia.
+  - eapply IH in H; eauto.
+  - destruct stack as [|q stack']; [eapply IH in H; eauto|]. inversion Hst; subst. eapply IH in H; eauto.
+  - destruct (nth_error toks p) eqn:E; [apply nth_some_lt in E|].
+    + destruct (N.eqb t t0); [eapply IH in H; eauto; lia | injection H as <- <- <-; lia].
+    + injection H as <- <- <-. lia.
+  - eapply IH in H; eauto.
+  - eapply IH in H; eauto.
+Qed.
+
 Section L.
 Variable run : srun_t.
 Hypothesis HE : Ext run.
@@ -101,7 +123,7 @@ Qed.
 Lemma it_snext_ext : forall i ctx its p r x its' r',
   it_snext toks spn run i ctx its p r = Some (x, its', r') -> p <= length toks -> snext_pos x p.
 Proof.
-  induction i as [a lo hi|a sep lo hi lead trail|j IHj|f j IHj|f j IHj|a|a lo hi ck|a];
+  induction i as [a lo hi|a sep lo hi lead trail|j IHj|f j IHj|f j IHj|a|a lo hi ck|a|i1 IHi1 i2 IHi2];
     intros ctx its p r x its' r' H Hp; cbn [it_snext] in H.
   - destruct its; try discriminate.
     destruct (rep_snext run a lo hi ctx n p r) as [[[x0 c'] r0]|] eqn:E; [|discriminate].
@@ -125,11 +147,20 @@ Proof.
       injection H as <- <- <-. eapply rep_snext_ext; eauto.
     + destruct (run (TryMap PFalse FId k Empty) ctx p r) as [[[?|] ?]|]; try discriminate.
       injection H as <- <- <-. exact I.
-  - destruct its as [| | | | |[l|]]; try discriminate.
+  - destruct its as [| | | | |[l|]|]; try discriminate.
     + destruct l; injection H as <- <- <-; cbn; lia.
     + destruct (run a ctx p r) as [[[[[v1 p1] e1]|] a1]|] eqn:E; try discriminate.
       * pose proof (HE _ _ _ _ _ _ _ _ E Hp). destruct (val_items v1); injection H as <- <- <-; cbn; auto.
       * injection H as <- <- <-. exact I.
+  - destruct its as [| | | | | |sa [sb|]]; try discriminate.
+    + destruct (it_snext toks spn run i2 ctx sb p r) as [[[x0 c'] r0]|] eqn:E; [|discriminate].
+      injection H as <- <- <-. eapply IHi2; eauto.
+    + destruct (it_snext toks spn run i1 ctx sa p r) as [[[x0 c'] r0]|] eqn:E; [|discriminate].
+      pose proof (IHi1 _ _ _ _ _ _ _ E Hp) as X.
+      destruct x0; try (injection H as <- <- <-; exact X). cbn in X.
+      destruct (it_snext toks spn run i2 ctx (mk_iter i2 ctx) p0 r0) as [[[x1 c1] r1]|] eqn:E2; [|discriminate].
+      pose proof (IHi2 _ _ _ _ _ _ _ E2 (proj2 X)) as X2.
+      destruct x1; injection H as <- <- <-; cbn in *; try exact I; lia.
 Qed.
 
 Lemma sdrive_ext : forall fuel i ctx its lim acc acce p r items fl p' ems r',
@@ -397,6 +428,9 @@ Proof.
   - (* ExtWrap *)
     destruct (sem n g ctx p a) as [[[[[v1 p1] e1]|] [[q e0]|]]|] eqn:E1; try discriminate;
       injection H as <- <- <- <-; eapply IH; eauto.
+  - (* Prog *)
+    destruct (prog_sem toks spn ops p [] [] p) as [[[] acc] p1] eqn:E; [|discriminate].
+    injection H as <- <- <- <-. eapply prog_sem_ext in E; [exact E | lia | constructor].
   - (* Padded *)
     pose proof (skip_ws_ext ws (length toks) p Hp) as X0.
     destruct (sem n g ctx (skip_ws toks (length toks) ws p) a) as [[[[[v1 p1] e1]|] a1]|] eqn:E1; try discriminate.
